@@ -174,9 +174,20 @@ def run(tw, tier, seed, only=None):
             ch.nodes[sorted(ch.nodes)[0]]["charge"] = 1       # one charged atom breaks the symmetry of the family
             cases += 1
             nontriv += check_graph(tw, ch, rng, fails, {"kind": "symmetric-family-charged"})
+    # localised (Kekule-form) rings built edge by edge: equally coloured neighbours reached through different bond orders, adjacency lists
+    # of equivalent atoms in different insertion orders
+    for n, start in ((4, 0), (4, 1), (6, 0), (6, 3)):
+        ring = nx.Graph()
+        for i in range(n):
+            ring.add_node(i, element="C", charge=0, hcount=0, aromatic=False)
+        for k in range(n):
+            i = (start + k) % n
+            ring.add_edge(i, (i + 1) % n, order=1 + (i % 2))
+        cases += 1
+        nontriv += check_graph(tw, ring, rng, fails, {"kind": "kekule-ring"})
     return {"cases": cases, "nontrivial": nontriv, "failures": fails, "samples": [gen.graph_desc(graphs[0])], "exhaustive": False,
             "evaluations": tw.evaluations,
-            "bound": "%d labelled graphs <= %d atoms (2 elements, 2 orders; sampled) + cycles C4/C5, K2,2, P4, star; matches of each graph into two disjoint copies of itself" % (
+            "bound": "%d labelled graphs <= %d atoms (2 elements, 2 orders; sampled) + cycles C4/C5, K2,2, P4, star, Kekule-form C4/C6 rings; matches of each graph into two disjoint copies of itself" % (
                 cases, 3 if tier == "quick" else 4),
             "rule": "a graph is non-trivial when it has a non-identity automorphism"}
 
